@@ -1,4 +1,162 @@
+/-
+C31 — Segment operations identify segments by instant.  Property theorems.
+
+`Fo` = calendar fields of the requested instant in the offset it was written with (what `time.Parse`
+returns), `Fl` = fields of the same instant in the server's zone (what the recorder used).  `toks` =
+tokens of the record path after the path name has been substituted (no `%path` left).
+-/
 import MtxVerif.Model.C31
+import MtxVerif.Props.C26
+
 namespace MtxVerif.C31
-theorem stub : True := trivial
+open MtxVerif.C26
+
+/-! ### when do two field tuples give the same file name? -/
+
+theorem encodeA_congr (toks : List Tok) (A A' : Kind → Bytes)
+    (h : ∀ k, Tok.cap k ∈ toks → A k = A' k) : encodeA toks A = encodeA toks A' := by
+  induction toks with
+  | nil => rfl
+  | cons t ts ih =>
+    have ih' := ih fun k hk => h k (List.mem_cons_of_mem _ hk)
+    cases t with
+    | lit b =>
+      show [b] ++ encodeA ts A = [b] ++ encodeA ts A'
+      rw [ih']
+    | cap k =>
+      show A k ++ encodeA ts A = A' k ++ encodeA ts A'
+      rw [ih', h k List.mem_cons_self]
+
+/-- **Name coincidence**: for admissible field texts, the names written from two tuples coincide iff
+the tuples agree on the text of every placeholder that occurs in the record path. -/
+theorem names_equal_iff (toks : List Tok) (h0 : pathCount toks = 0) (Fo Fl : Fields)
+    (ho : fieldsOK toks Fo = true) (hl : fieldsOK toks Fl = true) :
+    encode toks [] Fo = encode toks [] Fl ↔ ∀ k, Tok.cap k ∈ toks → val Fo k = val Fl k := by
+  have hAo := admissible_assign toks [] Fo (by decide) ho
+  have hAl := admissible_assign toks [] Fl (by decide) hl
+  have hnp : ∀ k, Tok.cap k ∈ toks → k ≠ .path := by
+    intro k hk e
+    subst e
+    exact pathFree_of_count toks h0 _ hk rfl
+  have hval : ∀ (F : Fields) k, k ≠ .path → assign [] F k = val F k := by
+    intro F k hk; cases k <;> first | rfl | exact absurd rfl hk
+  rw [encode_eq_encodeA, encode_eq_encodeA]
+  constructor
+  · intro he k hk
+    have hr : render toks (capsOf toks (assign [] Fo)) = render toks (capsOf toks (assign [] Fl)) := by
+      rw [render_capsOf, render_capsOf]; exact he
+    have hc := render_inj toks (by omega) _ _ ((fits_capsOf_iff toks _).mpr hAo) ((fits_capsOf_iff toks _).mpr hAl) hr
+    have h1 := lastCap_capsOf toks (assign [] Fo) k hk
+    have h2 := lastCap_capsOf toks (assign [] Fl) k hk
+    rw [hc, h2] at h1
+    have := Option.some.inj h1
+    rw [hval Fo k (hnp k hk), hval Fl k (hnp k hk)] at this
+    exact this.symm
+  · intro h
+    apply encodeA_congr
+    intro k hk
+    rw [hval Fo k (hnp k hk), hval Fl k (hnp k hk)]
+    exact h k hk
+
+/-! ### "whatever UTC offset the instant is written with" -/
+
+/-- Full strength for the handler that encodes the parsed value as is (`convertsToLocal = false`, the
+code before the fix): the same instant names the same file whatever offset it is written in.
+**False** (witness below): finding F-C31. -/
+def delete_offset_independent_full : Prop :=
+  ∀ (toks : List Tok) (Fo Fl : Fields), pathCount toks = 0 → sameInstant Fo Fl = true →
+    fieldsOK toks Fo = true → fieldsOK toks Fl = true → encode toks [] Fo = encode toks [] Fl
+
+/-- Without conversion: outside the decidable class `offsetMismatch` the names coincide.  (`hcal`: the
+calendar is a function — same instant read at the same offset gives the same tuple.) -/
+theorem delete_offset_independent_partial (toks : List Tok) (Fo Fl : Fields) (h0 : pathCount toks = 0)
+    (hs : sameInstant Fo Fl = true) (ho : fieldsOK toks Fo = true) (hl : fieldsOK toks Fl = true)
+    (hcal : Fo.off = Fl.off → Fo = Fl) (hx : offsetMismatch toks Fo Fl = false) :
+    encode toks [] Fo = encode toks [] Fl := by
+  unfold offsetMismatch at hx
+  by_cases hoff : Fo.off = Fl.off
+  · rw [hcal hoff]
+  · have hany : toks.any zoneDependent = false := by
+      cases h : toks.any zoneDependent
+      · rfl
+      · simp [h, hoff] at hx
+    rw [names_equal_iff toks h0 Fo Fl ho hl]
+    intro k hk
+    have hz : zoneDependent (Tok.cap k) = false := by
+      cases h : zoneDependent (Tok.cap k)
+      · rfl
+      · have : toks.any zoneDependent = true := List.any_eq_true.mpr ⟨_, hk, h⟩
+        rw [hany] at this; cases this
+    unfold sameInstant at hs
+    simp only [Bool.and_eq_true, beq_iff_eq] at hs
+    cases k <;> simp [zoneDependent] at hz
+    · exact absurd rfl (pathFree_of_count toks h0 _ hk)
+    · simp [val, hs.2]
+    · simp [val, hs.1]
+
+/-- With the conversion (`start.Local()` before `Encode`) the handler's file does not depend on the
+written offset at all, and is computed from the very tuple the recorder used: **the property's first
+half at full strength for the fixed handler.** -/
+theorem delete_offset_independent_fixed (cwd fmt name : Bytes) (Fo Fo' Fl : Fields) :
+    deleteFile true cwd fmt name Fo Fl = deleteFile true cwd fmt name Fo' Fl ∧
+    deleteFile true cwd fmt name Fo Fl = C06.deleteTarget cwd fmt name (texts Fl) := ⟨rfl, rfl⟩
+
+/-- Witness 1: format `%H`; 11:00Z on a server at +01:00 (local 12:00): the request written with `Z`
+names file `11`, the recorder wrote `12`. -/
+theorem delete_offset_independent_witness : ¬ delete_offset_independent_full := by
+  intro h
+  have := h [.cap .H] ⟨2023, 11, 14, 11, 0, 0, 0, 0, 1699959600⟩ ⟨2023, 11, 14, 12, 0, 0, 0, 3600, 1699959600⟩
+    (by decide) (by decide) (by decide) (by decide)
+  revert this
+  decide
+
+/-- Witness 2 (the dangerous half): the name computed for 11:00Z is the recorder's name of *another*
+segment — the one that started at 11:00 local time, an hour earlier. -/
+theorem wrong_segment_witness :
+    encode [.cap .H] [] ⟨2023, 11, 14, 11, 0, 0, 0, 0, 1699959600⟩
+      = encode [.cap .H] [] ⟨2023, 11, 14, 11, 0, 0, 0, 3600, 1699956000⟩ := by decide
+
+/-! ### listing, playback and deletion agree -/
+
+/-- What listing/playback decode from a file name determines the name: writing the decoded texts back
+gives the file again.  Together with the calendar round trip (`time.Date(fields, Local)` read back in
+`Local` gives the fields again — oracle; false only for non-existent local times) this is "deleting the
+start instant that listing reports removes that very file" for the converting handler. -/
+theorem list_then_delete (toks : List Tok) (f : Bytes) (m : Match) (h : decode toks f = some m) :
+    encodeA toks (fun k => (lastCap k m.caps).getD []) = f := by
+  have hm := match_whole true true toks f m h (Or.inl rfl)
+  have hcons : consistent m.caps = true := by
+    unfold decode decodeV at h
+    split at h
+    · rename_i m' _
+      split at h
+      · cases h
+      · rename_i hn
+        cases h
+        simpa using hn
+    · cases h
+  obtain ⟨hf, hs⟩ := (mem_allM toks f m.caps []).mp hm
+  have he := fits_eq_capsOf toks m.caps (fun k => (lastCap k m.caps).getD []) hf (consistent_agree m.caps hcons)
+  rw [hs, List.append_nil]
+  conv => rhs; rw [he]
+  rw [render_capsOf]
+
+/-- and the decoded start is the one C26 describes: same decoder for listing (`FindSegments`), playback
+(`FindSegments`) and the cleaner — they cannot disagree with each other. -/
+theorem one_decoder (toks : List Tok) (f : Bytes) (m m' : Match)
+    (h : decode toks f = some m) (h' : decode toks f = some m') : decodedStart m.caps = decodedStart m'.caps := by
+  rw [h] at h'; cases h'; rfl
+
+/-! ### non-vacuity -/
+
+example : offsetMismatch [.cap .H] ⟨2023, 11, 14, 11, 0, 0, 0, 0, 1699959600⟩ ⟨2023, 11, 14, 12, 0, 0, 0, 3600, 1699959600⟩ = true
+    ∧ offsetMismatch [.cap .s, .lit 45, .cap .f] ⟨2023, 11, 14, 11, 0, 0, 0, 0, 1699959600⟩ ⟨2023, 11, 14, 12, 0, 0, 0, 3600, 1699959600⟩ = false := by
+  decide
+/-- `%s-%f` names do not depend on the zone -/
+example : encode [.cap .s, .lit 45, .cap .f] [] ⟨2023, 11, 14, 11, 0, 0, 7, 0, 1699959600⟩
+    = encode [.cap .s, .lit 45, .cap .f] [] ⟨2023, 11, 14, 12, 0, 0, 7, 3600, 1699959600⟩ := by decide
+/-- a `%z` in the name does not help: the zone text itself differs -/
+example : encode [.cap .H, .cap .z] [] ⟨2023, 11, 14, 11, 0, 0, 0, 0, 1699959600⟩
+    ≠ encode [.cap .H, .cap .z] [] ⟨2023, 11, 14, 12, 0, 0, 0, 3600, 1699959600⟩ := by decide
+
 end MtxVerif.C31
